@@ -233,8 +233,9 @@ class CFG:
     through `Try::branch` of a literal `Err(..)`/`Ok(..)`.
     """
 
-    def __init__(self, fn, body=None):
+    def __init__(self, fn, body=None, adts=None):
         self.fn = fn
+        self.adts = adts or {}
         self.blocks = body['blocks'] if body else fn.blocks
         n = len(self.blocks)
         self.n = n
@@ -258,6 +259,8 @@ class CFG:
                     self._add(i, tgt, ('sw', v))
                 if known is not None and known in vals:
                     self.pruned.append((i, t['o'], 'else'))
+                elif self._exhaustive(i, vals):
+                    self.pruned.append((i, t['o'], 'else-exhaustive'))
                 else:
                     self._add(i, t['o'], ('sw_else', vals))
             elif k in ('call',):
@@ -290,6 +293,32 @@ class CFG:
                     seen.add(y)
                     st.append(y)
         return seen
+
+    STD_NVARIANTS = {'option::Option': 2, 'result::Result': 2, 'ops::ControlFlow': 2, 'control_flow::ControlFlow': 2, 'cmp::Ordering': 3}
+
+    def _exhaustive(self, i, vals):
+        """switch on `discriminant(x)` whose explicit targets cover every variant of x's enum type"""
+        bb = self.blocks[i]
+        d = bb['t']['d']
+        pl = d.get('m') or d.get('c')
+        if pl is None or pl['pr']:
+            return False
+        for s in reversed(bb['s']):
+            if 'p' in s and s['p']['l'] == pl['l'] and not s['p']['pr']:
+                rv = s['rv']
+                if rv['k'] != 'discr':
+                    return False
+                ty = rv.get('ty', '')
+                head = ty.split('<')[0]
+                n = None
+                for k, v in self.STD_NVARIANTS.items():
+                    if head.endswith(k):
+                        n = v
+                if n is None and head in self.adts:
+                    n = len(self.adts[head]['variants'])
+                    return len(set(vals)) == n and set(vals) == {v['discr'] for v in self.adts[head]['variants']}
+                return n is not None and len(set(vals)) == n
+        return False
 
     # -- P0: known variant of the switched value
     def _known_discr(self, i):
@@ -513,7 +542,7 @@ class FnAnalysis:
     def __init__(self, prog, fn):
         self.prog = prog
         self.fn = fn
-        self.cfg = CFG(fn)
+        self.cfg = CFG(fn, adts=getattr(prog, 'adts', None))
         self.blocks = fn.blocks
         self._defs = None
         self._rd = None
@@ -719,13 +748,30 @@ class FnAnalysis:
                 v = v2
             if ok:
                 return v
-            # rebuild on top of the (immutable) value of the local
-            if root[1] not in self.addr_taken_mut() and (self.single_def(root[1]) is not None or
-                                                         (1 <= root[1] <= self.fn.argc and not self.defs().get(root[1]))):
-                e = self.local_value(root[1], at)
-                for c in chain:
-                    e = apply_proj(e, c)
-                return ('pick', e)
+            # rebuild on top of the value of the local (through phi alternatives)
+            if root[1] not in self.addr_taken_mut():
+                v = self.local_value(root[1], at)
+                alts = v[1] if v[0] == 'phi' else (v,)
+                outs = []
+                for a in alts:
+                    e = a
+                    dead = False
+                    for c in chain:
+                        p2 = project(e, c)
+                        if p2 is not None:
+                            e = p2
+                        elif e[0] == 'agg' and c[0] == 'var' and e[2] != c[1]:
+                            dead = True  # this alternative is another variant: cannot be the one read here
+                            break
+                        else:
+                            e = apply_proj(e, c)
+                    if not dead:
+                        outs.append(e)
+                outs = tuple(dict.fromkeys(outs))
+                if len(outs) == 1:
+                    return outs[0] if outs[0][0] in ('agg', 'const', 'cdef', 'param', 'call', 'bin', 'cast', 'un', 'tuple') else ('pick', outs[0])
+                if len(outs) > 1:
+                    return ('phi', outs)
         return ('load', pe, at)
 
     def local_value(self, l, at):
